@@ -48,7 +48,7 @@ var c16BadTexts = []string{"rule \"n0\" begin", "rule \"n1\" \"d\" salience 1 be
 func init() {
 	register(&Prop{
 		ID:   "C16",
-		Rule: "operation histories of up to 20 steps on one pool (sizes (1,2),(1,3),(2,3),(2,4),(3,6)): UpdatePooledRules, UpdatePooledRulesIncremental, RemoveRules (present, absent, empty list), ClearPoolRules, SetExecModel (valid and invalid), invalid texts for both update kinds, interleaved with single executions and with probe-all executions (max requests parked simultaneously on Hold gates, which forces one request onto every instance, initial and additional); oracle = model (rule map, execution model, cleared flag): after every step IsExist / GetRulesNumber / GetRuleSalience / GetRuleDesc / GetExecModel agree with the model, every execution and every probe result equals the model's rule set with the current tags (validated against the reference scheduling model of the configured execution model), a cleared pool runs nothing and returns an empty map, updates after clear bring it back, no step panics. Non-trivial: the history contains clear -> incremental, or remove -> incremental, or an update followed by a probe-all on a pool with max >= 3; distinct by case hash",
+		Rule: "operation histories of up to 20 steps on one pool (sizes (1,2),(1,3),(2,3),(2,4),(3,6)): UpdatePooledRules, UpdatePooledRulesIncremental, RemoveRules (present, absent, empty list), ClearPoolRules, SetExecModel (valid and invalid), re-submission of the byte-identical text of the last full or last incremental update, invalid texts for both update kinds, interleaved with single executions and with probe-all executions (max requests parked simultaneously on Hold gates, which forces one request onto every instance, initial and additional); oracle = model (rule map, execution model, cleared flag): after every step IsExist / GetRulesNumber / GetRuleSalience / GetRuleDesc / GetExecModel agree with the model, every execution and every probe result equals the model's rule set with the current tags (validated against the reference scheduling model of the configured execution model), a cleared pool runs nothing and returns an empty map, updates after clear bring it back, no step panics. Non-trivial: the history contains clear -> incremental, or remove -> incremental, or an update followed by a probe-all on a pool with max >= 3; distinct by case hash",
 		New:  func() interface{} { return &C16Case{} },
 		Gen: func(t *rapid.T) interface{} {
 			c := &C16Case{}
@@ -67,7 +67,11 @@ func init() {
 				case k == 0:
 					c.Ops = append(c.Ops, C16Op{Kind: "full", Rules: genC08Rules(t, pfx, i+1)})
 				case k == 1:
-					c.Ops = append(c.Ops, C16Op{Kind: "refull"})
+					if pct(t, pfx+"re_incr", 60) {
+						c.Ops = append(c.Ops, C16Op{Kind: "reincr"})
+					} else {
+						c.Ops = append(c.Ops, C16Op{Kind: "refull"})
+					}
 				case k <= 5:
 					c.Ops = append(c.Ops, C16Op{Kind: "incr", Rules: genC08Rules(t, pfx, i+1)})
 				case k <= 8:
@@ -117,6 +121,9 @@ func checkC16(ci interface{}, x *Ctx) {
 	updatedSinceProbe := true
 	hist := func(step int) string { return jsonStr(c.Ops[:step+1]) }
 	lastFullText, lastFullRules, lastFullTags := text0, c.Init, tags0
+	var lastIncrText string
+	var lastIncrRules []C08Rule
+	var lastIncrTags map[string]int64
 	for step, op := range c.Ops {
 		var opErr error
 		var pan string
@@ -136,6 +143,22 @@ func checkC16(ci interface{}, x *Ctx) {
 				cleared = false
 			}
 			updatedSinceProbe = true
+		case "reincr":
+			if lastIncrText == "" {
+				continue
+			}
+			x.Class("identical-incr-text-resubmitted")
+			if lastMgmt != "incr" {
+				x.Class("identical-incr-text-after-other-change")
+			}
+			opErr, pan = guard(func() error { return p.UpdatePooledRulesIncremental(lastIncrText) })
+			if opErr == nil && pan == "" {
+				for _, r := range lastIncrRules {
+					model[r.Name] = c08Entry{r.Sal, r.Desc, lastIncrTags[r.Name]}
+				}
+				cleared = false
+			}
+			updatedSinceProbe = true
 		case "full":
 			text, tags := c16Text(op.Rules, int64((step+1)*100))
 			lastFullText, lastFullRules, lastFullTags = text, op.Rules, tags
@@ -150,6 +173,7 @@ func checkC16(ci interface{}, x *Ctx) {
 			updatedSinceProbe = true
 		case "incr":
 			text, tags := c16Text(op.Rules, int64((step+1)*100))
+			lastIncrText, lastIncrRules, lastIncrTags = text, op.Rules, tags
 			if lastMgmt == "clear" {
 				x.Class("clear-then-incremental")
 				x.NonTrivial()
@@ -206,7 +230,7 @@ func checkC16(ci interface{}, x *Ctx) {
 			return
 		}
 		switch op.Kind {
-		case "full", "incr", "refull":
+		case "full", "incr", "refull", "reincr":
 			if opErr != nil {
 				x.Violation("op-rejected:"+sig, "step %d (%s) rejected a valid update: %v\nhistory %s", step, op.Kind, opErr, hist(step))
 				return
